@@ -363,7 +363,51 @@ func (e *Exec) alloc(st *State, hint string) *Term {
 }
 
 // load reads through an address value.
+// arrayElem: element type of an array type whose values are modelled by copying rows (no struct elements).
+func arrayElem(t types.Type) (types.Type, bool) {
+	at, ok := t.Underlying().(*types.Array)
+	if !ok {
+		return nil, false
+	}
+	if _, isStruct := at.Elem().Underlying().(*types.Struct); isStruct {
+		return nil, false
+	}
+	if sortOf(at.Elem()) == structSort || sortOf(at.Elem()) == tupleSort {
+		return nil, false
+	}
+	return at.Elem(), true
+}
+
+// rowOf: the row (backing array id) an address of an array variable denotes.
+func (e *Exec) rowOf(st *State, addr Value) *Term {
+	switch a := addr.(type) {
+	case *Term:
+		if a.Sort == SInt {
+			return a
+		}
+	case *Loc:
+		return e.locAsTerm(st, a)
+	}
+	return nil
+}
+
+// copyRow: dst's row takes the contents of src's row (array values have value semantics).
+func (e *Exec) copyRow(st *State, et types.Type, dst, src *Term) {
+	s := sortOf(et)
+	comp := arrComp(et)
+	h := e.heapRead(st, comp, ArrSort(ArrSort(s)))
+	st.heap[comp] = e.def(h.Sort, Store(h, dst, Select(h, src)))
+}
+
 func (e *Exec) load(fr *Frame, st *State, addr Value, t types.Type) Value {
+	if et, ok := arrayElem(t); ok {
+		// an array value is a snapshot: a new row with the contents the variable has now
+		if src := e.rowOf(st, addr); src != nil {
+			snap := e.alloc(st, "arrval")
+			e.copyRow(st, et, snap, src)
+			return snap
+		}
+	}
 	switch a := addr.(type) {
 	case *Loc:
 		return e.loadLoc(st, a, t)
@@ -559,6 +603,14 @@ func (e *Exec) locAsTerm(st *State, a *Loc) *Term {
 }
 
 func (e *Exec) store(fr *Frame, st *State, addr Value, v Value, t types.Type) {
+	if et, ok := arrayElem(t); ok {
+		if dst := e.rowOf(st, addr); dst != nil {
+			if src, ok := v.(*Term); ok && src.Sort == SInt {
+				e.copyRow(st, et, dst, src)
+				return
+			}
+		}
+	}
 	switch a := addr.(type) {
 	case *Loc:
 		e.storeLoc(st, a, v, t)
